@@ -71,8 +71,14 @@ class Ctx:
     # ---- fact bases
     def prog(self, cfg):
         if cfg not in _prog_cache:
-            path = factbase.facts(cfg, quiet=True)
-            _prog_cache[cfg] = facts.Program(path)
+            for attempt in range(3):
+                path = factbase.facts(cfg, quiet=True)
+                try:
+                    _prog_cache[cfg] = facts.Program(path)
+                    break
+                except FileNotFoundError:      # pruned by a concurrent run between build and load: rebuild
+                    if attempt == 2:
+                        raise
         return _prog_cache[cfg]
 
     def mod(self, cfg):
